@@ -10,31 +10,30 @@ import vp
 LEVEL = "proof"
 META = {
     "level": "proof",
-    "technique": "Coq proofs over list-level ports of parallel.h for all legal TBB schedules + schedule-simulator / real-TBB correspondence with the extracted model + std:: oracle",
-    "text": "Coq theorems (Properties_C13), all for every input and every schedule accepted by the legality predicates of Par/Sched.v: stable_sort_spec "
-            "(parallel merge sort = stable insertion sort for every strict weak order and threshold >= 2), merge_rec_spec, radix_sort_spec (the radix path "
-            "over keys of k bytes: is_sorted shortcut, stable counting pass per byte with canSkip, SortedRange join, any reduction tree) and radix_pass_spec, "
-            "scan_protocol_spec / scan_spec / inclusive_scan_spec / copy_if_spec / copy_if_scan_body_spec / remove_if_spec (pre_scan/final_scan/"
-            "reverse_join/assign protocol = the sequential algorithm for associative f with two-sided identity), unique_spec (every chunk size >= 1), "
-            "reduce_spec (every init, f associative), all_of_spec, for_each_family (write-once bodies, any split tree and leaf order), "
-            "reduce_sites_pass_identities (generated table), uf_cas_step_preserves_order (any interleaving of the CAS steps keeps the (rank,id) parent "
-            "order), uf_partition_partial (the one-thread port yields exactly the equivalence closure), hash_insert_partial (claim steps keep the probe "
-            "invariant; unique slot; found). Tie: every template instantiated with ExecutionPolicy::Par runs under real TBB (1..16 threads, source "
-            "thresholds and a threshold-substituted copy of parallel.h) and under the seeded schedule simulator; results are compared with std:: "
-            "in-process; every logged schedule must pass the extracted legal_* predicates and the extracted model run under it must reproduce the "
-            "output; DisjointSets/HashTableD are hammered by 1-3 real threads: one-thread runs must equal the extracted models word for word, "
-            "concurrent runs partition-for-partition / key-set and probe invariant.",
+    "technique": "Coq proofs over ports of parallel.h / disjoint_sets.h / hashtable.h for all legal TBB schedules and all thread interleavings + schedule-simulator / real-TBB / real-thread correspondence with the extracted models + std:: oracle",
+    "text": "Coq theorems (Properties_C13), for every input and every schedule accepted by the legality predicates of Par/Sched.v: stable_sort_spec, "
+            "merge_rec_spec, radix_sort_spec (+ radix_pass_spec; buffer-level refinement radix_prefix_sum_spec / radix_shuffle_refines / "
+            "lsb_radix_sort_buffers_refine / histogram_any_split), scan_protocol_spec, scan_spec, inclusive_scan_spec, scan_spec_inplace and "
+            "inclusive_scan_spec_inplace (one shared buffer, read-before-store), copy_if_spec, copy_if_scan_body_spec, remove_if_spec, unique_spec, "
+            "reduce_spec (every init), all_of_spec, for_each_family, reduce_sites_pass_identities. Lock-free containers, for ANY number of threads and "
+            "ANY interleaving of their atomic load/CAS steps: uf_partition (when all unite/find calls have returned, same root <=> equivalence closure "
+            "of the united pairs; the (rank,id) parent order holds in every reachable configuration), uf_sequential_terminates (fuel n+1), hash_insert "
+            "(at quiescence every Insert that did not see Full() has its key in exactly one slot, found by operator[], with the claimer's value), "
+            "hash_used_accounting, hash_probe_terminates. Tie: every template with ExecutionPolicy::Par, out of place and in place, under real TBB "
+            "(1..16 threads, source thresholds and a threshold-substituted copy of parallel.h) and under the seeded schedule simulator; compared with "
+            "std:: in-process; every logged schedule must pass the extracted legal_* predicates and the extracted model run under it must reproduce the "
+            "output (for LSB_radix_sort: the flag and both buffers); DisjointSets/HashTableD run with 1-3 real threads: one-thread runs equal the "
+            "extracted models word for word, concurrent runs partition-for-partition / key set / probe invariant.",
     "note": "Trusted: Coq kernel, extraction, std:: algorithms modelled by their specification (merge, stable_sort of a block, lower/upper_bound on sorted "
-            "runs, reduce on a block), list-level abstraction of buffer index arithmetic (a two-buffer merge sort model is executed in the correspondence "
-            "but not proved; counting passes modelled as stable partitions), the informal argument that Sched.legal_* contain every behaviour TBB documents. "
-            "Partial: union-find final partition and hash table are proved for the sequential port / per CAS step only (concurrent final partition, "
-            "values, Full() race: real threads only); termination of findImpl from the order invariant is not proved (model returns None on fuel "
-            "exhaustion; never observed). Three defects found by this check on the pinned tree were fixed upstream of it (fc899df2, 8dafdd9e, 1f3be2f4).",
+            "runs, reduce on a block), list-level abstraction of mergeRec/mergeSortRec buffer indices (a two-buffer model is executed, not proved) and of "
+            "SortedRange's two arrays (flags are modelled), the informal argument that Sched.legal_* contain every behaviour TBB documents, sequentially "
+            "consistent atomics (the code's acq_rel/relaxed orders are not modelled). Partial: lock-freedom of unite/find under interleaving as a "
+            "statement about executions (uf_above_decreases_partial names the gap). Three defects found by this check were fixed upstream (fc899df2, 8dafdd9e, 1f3be2f4).",
 }
 
 SMALL_THR, SMALL_MAXBUF = 4, 8
-ALGS_MODEL = ["sort_cmp", "sort_less", "sort_u32", "sort_u64", "sort_sz", "sort_i32", "sort_i64", "mergerec", "reduce", "treduce", "count_if", "all_of",
-              "incl_scan", "excl_scan", "copy_if", "remove_if", "remove", "unique", "for_each", "for_each_n", "transform",
+ALGS_MODEL = ["sort_cmp", "sort_less", "sort_u32", "lsb_radix", "sort_u64", "sort_sz", "sort_i32", "sort_i64", "mergerec", "reduce", "treduce", "count_if", "all_of",
+              "incl_scan", "excl_scan", "exclusive_scan-inplace", "inclusive_scan-inplace", "transform-inplace", "copy_if", "remove_if", "remove", "unique", "for_each", "for_each_n", "transform",
               "copy", "copy_n", "fill", "sequence", "gather", "scatter"]
 IDENT = {0: 0, 1: -(2 ** 60), 2: 2 ** 60, 3: 0}     # within OCaml's 63-bit ints; identities on the generated value domain [0, 2^62)
 
@@ -86,11 +85,11 @@ def make_case(rng, cid, alg, n, threads, dump, known_probe=False):
         p1 = rng.choice([x[rng.randrange(n)] if n else 1, -1, -1])
     elif alg == "remove":
         p1 = x[rng.randrange(n)] if n and rng.random() < 0.8 else -1
-    elif alg == "excl_scan":
+    elif alg in ("excl_scan", "exclusive_scan-inplace"):
         p2 = rng.randrange(4)
         p1 = rng.randrange(-5, 100)
         if p2 == 3: x = [v if rng.random() < 0.5 else 0 for v in x]
-    elif alg in ("for_each", "for_each_n", "transform", "fill"):
+    elif alg in ("for_each", "for_each_n", "transform", "transform-inplace", "fill"):
         p1 = rng.randrange(-3, 50)
     elif alg == "gather":
         m = rng.choice([0, 1, n, n + 3, 2 * n + 1]) if n else 0
@@ -103,7 +102,7 @@ def make_case(rng, cid, alg, n, threads, dump, known_probe=False):
         y = sorted(keys(rng, m, style))
     elif alg == "unique":
         x = sorted(x) if rng.random() < 0.7 else x
-    elif alg in ("sort_u32", "sort_i32"):
+    elif alg in ("sort_u32", "sort_i32", "lsb_radix"):
         x = [v * rng.choice([1, 257, 65537]) % (1 << 31) for v in x]
     elif alg in ("sort_u64", "sort_sz", "sort_i64"):
         x = [v * rng.choice([1, 257, (1 << 33) + 5]) % (1 << 62) for v in x]
@@ -167,7 +166,7 @@ def run(cx):
         "std::merge, std::stable_sort (on a block), std::lower_bound/upper_bound (on sorted runs), std::copy, std::reduce (on a block, associative op) are modelled by their specification",
         "list-level model: buffer index arithmetic of mergeRec/mergeSortRec is abstracted (a two-buffer model msort_buf is executed in the correspondence, not proved)",
         "Sched.legal_for/legal_reduce/legal_scan/legal_invoke are argued (not proved) to contain every behaviour TBB documents; every schedule the simulator produces is checked against them",
-        "lock-free containers: per-CAS-step invariants for any interleaving and the sequential port are proved; the concurrent final partition / found-with-value statement is exercised with real threads only",
+        "lock-free containers: proved for a sequentially consistent interleaving semantics of the atomic steps; weak-memory effects are outside the model (real-thread runs only)",
         "integer inputs only; schedule-dependent floating point results belong to C04",
     ]
     src, m1, m2, thr, maxbuf = read_consts()
@@ -254,7 +253,14 @@ def run(cx):
     outs = {}
 
     def runner(tag, exe, cases):
-        outs[tag] = vp.run_cases(exe, [c["line"] for c in cases], kl, ko, timeout=1200)
+        for attempt in range(4):      # another check process may be re-linking the same cached binary
+            try:
+                outs[tag] = vp.run_cases(exe, [c["line"] for c in cases], kl, ko, timeout=1200)
+                return
+            except OSError as e:
+                cx.log("retrying %s: %s" % (tag, e))
+                time.sleep(5)
+        outs[tag] = ("", [("<harness %s could not be executed>" % tag, -1, "")])
     jobs = [("sim", exes["sim"], sim_cases), ("par_small", exes["par_small"], pars_cases),
             ("par_real", exes["par_real"], real_cases + probes)]
     ths = [threading.Thread(target=runner, args=j) for j in jobs]
